@@ -298,6 +298,8 @@ var topRules = []topRule{
 		good: "import g from lib;\nfn f() -> int { 1 }\nfn main() { println(f(), g); }\n", bad: "import f from lib;\nfn f() -> int { 1 }\nfn main() { println(f.len()); }\n"},
 	{name: "global-named-like-imported-function", lib: "pub fn f() -> str { \"abc\" }\npub fn g() -> str { \"x\" }\nfn main() {}\n",
 		good: "import g from lib;\nlet f = 1;\nfn main() { println(f, g()); }\n", bad: "import f from lib;\nlet f = 1;\nfn main() { println(f); }\n"},
+	{name: "assign-function-value", good: "fn f(x: int) -> int { x }\nfn g(x: int) -> int { x + 1 }\nfn main() { let h = f; h = g; let o = new { cb: f }; o.cb = g; let l = [f]; l[0] = g; println(h(1), o.cb(1), l[0](1)); }\n",
+		bad: "fn f(x: int) -> int { x }\nfn g(x: str) -> int { 1 }\nfn main() { let h = f; h = g; println(h(1)); }\n"},
 	{name: "list-literal-function-elements", good: "fn f(x: int) -> int { x }\nfn g(x: int) -> int { x + 1 }\nfn main() { let l = [f, g, fn(x: int) -> int { x + 2 }]; println(l[1](1), l[2](1)); }\n",
 		bad: "fn f(x: int) -> int { x }\nfn g(x: str) -> int { 1 }\nfn main() { let l = [f, g]; println(l[0](1)); }\n"},
 	{name: "duplicate-parameter-singleton-and-normal", good: "$S = { n: int };\nfn f(a: $S, b: int) -> int { a.n + b }\nfn main() { println(f(1)); }\n", bad: "$S = { n: int };\nfn f(a: $S, a: int) -> int { a.n }\nfn main() { println(f(1)); }\n"},
